@@ -999,7 +999,11 @@ where
 	C: NodeClient + 'a,
 	K: Keychain + 'a,
 {
-	update_outputs(wallet_inst.clone(), keychain_mask, true)?;
+	let parent_key_id = {
+		wallet_lock!(wallet_inst, w);
+		w.parent_key_id()
+	};
+	update_outputs(wallet_inst.clone(), keychain_mask, &parent_key_id, true)?;
 	let tip = {
 		wallet_lock!(wallet_inst, w);
 		w.w2n_client().get_chain_tip()?
@@ -1090,7 +1094,13 @@ where
 			"Updating outputs from node".to_owned(),
 		));
 	}
-	let mut result = update_outputs(wallet_inst.clone(), keychain_mask, update_all)?;
+	// (every step works on the account that was active when the update started)
+	let mut result = update_outputs(
+		wallet_inst.clone(),
+		keychain_mask,
+		&parent_key_id,
+		update_all,
+	)?;
 
 	if !result {
 		if let Some(ref s) = status_send_channel {
@@ -1112,7 +1122,7 @@ where
 		wallet_lock!(wallet_inst, w);
 		updater::retrieve_txs(&mut **w, None, None, None, Some(&parent_key_id), true)?
 	};
-	result = update_txs_via_kernel(wallet_inst.clone(), keychain_mask, &mut txs)?;
+	result = update_txs_via_kernel(wallet_inst.clone(), keychain_mask, &parent_key_id, &mut txs)?;
 	if !result {
 		if let Some(ref s) = status_send_channel {
 			let _ = s.send(StatusMessage::UpdateWarning(
@@ -1194,8 +1204,9 @@ where
 		}
 		if let Some(e) = tx.ttl_cutoff_height {
 			if tip.0 >= e {
+				// under the account the entries were read for, which need not be the
+				// active one any more
 				wallet_lock!(wallet_inst, w);
-				let parent_key_id = w.parent_key_id();
 				tx::cancel_tx(&mut **w, keychain_mask, &parent_key_id, Some(tx.id), None)?;
 			}
 		}
@@ -1295,6 +1306,7 @@ where
 fn update_outputs<'a, L, C, K>(
 	wallet_inst: Arc<Mutex<Box<dyn WalletInst<'a, L, C, K>>>>,
 	keychain_mask: Option<&SecretKey>,
+	parent_key_id: &Identifier,
 	update_all: bool,
 ) -> Result<bool, Error>
 where
@@ -1303,8 +1315,7 @@ where
 	K: Keychain + 'a,
 {
 	wallet_lock!(wallet_inst, w);
-	let parent_key_id = w.parent_key_id();
-	match updater::refresh_outputs(&mut **w, keychain_mask, &parent_key_id, update_all) {
+	match updater::refresh_outputs(&mut **w, keychain_mask, parent_key_id, update_all) {
 		Ok(_) => Ok(true),
 		Err(e) => {
 			if let Error::InvalidKeychainMask = e {
@@ -1319,6 +1330,7 @@ where
 fn update_txs_via_kernel<'a, L, C, K>(
 	wallet_inst: Arc<Mutex<Box<dyn WalletInst<'a, L, C, K>>>>,
 	keychain_mask: Option<&SecretKey>,
+	parent_key_id: &Identifier,
 	txs: &mut Vec<TxLogEntry>,
 ) -> Result<bool, Error>
 where
@@ -1326,11 +1338,6 @@ where
 	C: NodeClient + 'a,
 	K: Keychain + 'a,
 {
-	let parent_key_id = {
-		wallet_lock!(wallet_inst, w);
-		w.parent_key_id()
-	};
-
 	let mut client = {
 		wallet_lock!(wallet_inst, w);
 		w.w2n_client().clone()
@@ -1362,7 +1369,7 @@ where
 					Some(tx.id),
 					None,
 					None,
-					Some(&parent_key_id),
+					Some(parent_key_id),
 					true,
 				)?;
 				let mut current = match current.into_iter().next() {
@@ -1373,7 +1380,7 @@ where
 				let locked_inputs: Vec<OutputData> = w
 					.iter()
 					.filter(|o| {
-						o.root_key_id == parent_key_id
+						o.root_key_id == *parent_key_id
 							&& o.tx_log_entry == Some(current.id)
 							&& o.status == OutputStatus::Locked
 					})
@@ -1381,7 +1388,7 @@ where
 				let mut batch = w.batch(keychain_mask)?;
 				current.confirmed = true;
 				current.update_confirmation_ts();
-				batch.save_tx_log_entry(current.clone(), &parent_key_id)?;
+				batch.save_tx_log_entry(current.clone(), parent_key_id)?;
 				for mut o in locked_inputs {
 					o.mark_spent();
 					batch.save(o)?;
